@@ -109,6 +109,17 @@ def conversation(run, pv, rng, length, threshold, abrupt, label,
         if ids.count(pid) == 1:
             unhandled.append(name)
     hist = build_history(rng, pv, codec, length, unknown_ids, unhandled)
+    # frames whose uncompressed size is *exactly* the threshold in force (a
+    # vanilla peer compresses from that size on): one at the login threshold,
+    # one at each in-play threshold
+    if unknown_ids:
+        for th in {threshold, 64, 256} - {None, 0}:
+            uid = unknown_ids[0]
+            body = bytes(rng.getrandbits(8) for _ in range(
+                th - len(rv.encode(uid))))
+            hist.insert(rng.randrange(len(hist) + 1),
+                        ('unknown', (uid, body), None))
+            run.count('frames_of_exactly_threshold_size')
     state = {'frames': None, 'login_name': None}
     burst = rng.choice((1, 7, 49, 50, 51, 120, 10 ** 6))
     if abrupt == 'reset':
@@ -624,6 +635,7 @@ def run(run):
             run.inconclusive_because('client-leaves %d: %s' % (i, info))
     run.require('directed.client_leaves_mid_write', 2)
     run.require('directed.reset_mid_batch', 2)
+    run.require('frames_of_exactly_threshold_size', 20)
     run.require('conversations', 20)
     run.require('echoes_seen', 50)
     run.require('versions', 30)
